@@ -9,6 +9,7 @@ TRUSTED = [
     "CPython struct, bisect, io.BytesIO, tarfile, pickle are trusted; bisect_right is modelled as its loop",
 ]
 ASSUMPTIONS = [
+    "offsets and derived dstoffsets are strictly within ±24 h (CPython raises ValueError from utcoffset()/dst() otherwise; not modelled)",
     "abbreviation bytes are ASCII (valid multi-byte UTF-8 in the abbreviation block is outside the model)",
     "streams behave like io.BytesIO (short reads at EOF, relative seek clamps at 0); OS-level I/O errors are out of scope",
     "|utcoffset| < 24 h and datetimes stay inside 0001..9999 (32-bit transition times: 1901..2038)",
